@@ -899,7 +899,7 @@ COPY_OPS = {'copy', 'copy_copy', 'deepcopy', 'pickle', 'freeze', 'thaw', 'ctor_s
 SHAPE_OPS = {'copy', 'copy_copy', 'deepcopy', 'pickle', 'freeze', 'thaw'}       # the methods of Gen copy_shapes
 NEVER_RAISES = COPY_OPS | {'new_vec', 'new_fvec', 'new_ang', 'new_fang', 'new_kw', 'new_mat_yaw', 'new_mat_pitch', 'new_mat_roll', 'new_mat_angle',
                            'new_fmat_angle', 'ang_from_str', 'vec_from_str', 'ctor_cross', 'iter_ctor', 'str', 'hash', 'eq', 'neg', 'abs', 'mat_to_angle',
-                           'mat_transpose', 'vec_reads', 'to_matrix', 'mat_from_angstr', 'ang_mul', 'ang_rmul', 'with_axes'}
+                           'mat_transpose', 'to_matrix', 'mat_from_angstr', 'ang_mul', 'ang_rmul', 'with_axes'}
 
 
 def finite_small(o) -> bool:
@@ -938,7 +938,8 @@ class HistRunner:
             problems.append((f'implementation-hangs-in-{op[0]}', f'{op[0]} did not return within {IMPL_CPU_LIMIT:.0f} s of CPU time', step))
             return
         except (TypeError, AttributeError, ValueError, ZeroDivisionError, KeyError, NotImplementedError, OverflowError, ArithmeticError) as e:
-            if op[0] in NEVER_RAISES:        # constructions from finite numbers, copies, reading: no input makes these fail
+            if op[0] in NEVER_RAISES and not isinstance(e, ArithmeticError):     # (overflow of huge finite values is legitimate)
+                # constructions from finite numbers, copies, reading: no input makes these fail
                 problems.append((f'raised-{type(e).__name__}-in-{op[0]}', f'{op[0]} raised {type(e).__name__}: {e}', step))
                 return
             res = ('<raised>', op[1], [], [])
@@ -1501,10 +1502,13 @@ def corr_ctor_rows(ck: Ck, side: dict):
             af = 'FSameClass' if src == cname else 'FOtherAngle'
         if per.get((cname, af), 0) >= 45 or cname not in ctors:
             continue
-        o, raw = ctor_forms()[form](getattr(M, cname), v, 'ang', k)
+        try:
+            o, raw = ctor_forms()[form](getattr(M, cname), v, 'ang', k)
+        except Exception:           # noqa: BLE001 - reported by the search
+            continue
         supplied = [norm360(x) for x in raw] if af in ('FSameClass', 'FOtherAngle') else [float(x) for x in raw]
         got = raw_slots(o)
-        if not all(math.isfinite(x) for x in supplied):
+        if not all(type(x) is float and math.isfinite(x) for x in tuple(supplied) + tuple(got)):
             continue
         per[(cname, af)] = per.get((cname, af), 0) + 1
         cases.append((ctors[cname], af, supplied, got))
@@ -1561,7 +1565,8 @@ def search_ctor_forms(ck: Ck) -> None:
             for cname in ('Angle', 'FrozenAngle', 'Vec', 'FrozenVec'):
                 k = (ti + len(form)) % 4
                 probs = ctor_case(cname, form, v, k, impl_limit)
-                if not probs and form in FORM_TO_ARGFORM and 'Angle' in cname and len(CTOR_CORR_CASES) < 4000:
+                if form in FORM_TO_ARGFORM and 'Angle' in cname and len(CTOR_CORR_CASES) < 4000 \
+                        and not any(key.startswith(('ctor-raised', 'implementation-hangs', 'ctor-wrong-class', 'ctor-slot-not-float')) for key, _ in probs):
                     CTOR_CORR_CASES.append((cname, form, list(v), k))
                 ck.count('ctor_form_cases')
                 ck.hist('ctor_form', form)
@@ -1652,8 +1657,18 @@ def search_frozen_keys(ck: Ck) -> None:
                 if any(c != round(c) for c in raw_slots(a)):
                     ck.seen(('hash', cls.__name__, tuple(hexes(v))))
                 h0, s0 = hash(a), raw_slots(a)
-                routes = {'components': cls(*a), 'pickle': pickle.loads(pickle.dumps(a)), 'thaw_freeze': a.thaw().freeze(), 'from_mutable': cls(a.thaw()),
-                          'iterator': cls(iter(a)), 'deepcopy_of_thawed': cls(copy.deepcopy(a.thaw())), 'from_str_object': cls.from_str(a)}
+                makers = {'components': lambda: cls(*a), 'pickle': lambda: pickle.loads(pickle.dumps(a)), 'thaw_freeze': lambda: a.thaw().freeze(),
+                          'from_mutable': lambda: cls(a.thaw()), 'iterator': lambda: cls(iter(a)), 'deepcopy_of_thawed': lambda: cls(copy.deepcopy(a.thaw())),
+                          'from_str_object': lambda: cls.from_str(a)}
+                routes = {}
+                for rname, mk in makers.items():
+                    try:
+                        routes[rname] = mk()
+                    except Exception as e:      # noqa: BLE001 - none of these may fail for a finite frozen value
+                        found.setdefault(f'frozen-route-raised-{rname}-{cls.__name__}', (f'{rname} of {a!r} raised {type(e).__name__}: {e}',
+                                                                                       {'call': 'hash_route', 'cls': cls.__name__, 'values': hexes(v), 'route': rname}))
+                if 'pickle' not in routes:
+                    continue
                 for rname, b in routes.items():
                     if hexes(raw_slots(b)) != hexes(s0):
                         continue                      # a different value: reported by the constructor / copy oracles
@@ -2116,7 +2131,7 @@ def explain_failures(ck: Ck) -> None:
         ck.explain('instance:no_write_through_unknown_or_aliased_object')
         ck.explain('instance:census_fresh_by_name_justified')
         ck.explain('correspondence:frames')
-    if any(k.startswith(('copy-is-same-object', 'copy-not-equal', 'source-changed-by')) for k in keys):
+    if any(k.startswith(('copy-is-same-object', 'copy-not-equal', 'source-changed-by', 'copy-raised', 'raised-', 'frozen-route-raised', 'copy-wrong-class')) for k in keys):
         ck.explain('instance:copy_')
         ck.explain('correspondence:results')
         ck.explain('correspondence:copy_shapes')
